@@ -156,6 +156,11 @@ static void sym16(char *out, uint32_t minlen, uint32_t maxlen) { uint32_t len = 
   if (maxlen > 0) p[0] = c0; if (maxlen > 1) p[1] = c1; if (maxlen > 2) p[2] = c2; if (maxlen > 3) p[3] = c3;
   if (maxlen > 4) { p[4] = vp_u16(); p[5] = vp_u16(); p[6] = vp_u16(); p[7] = vp_u16(); } qs_seal(d, 0); *(QAD**)out = d; }
 void vp_sym_string(char *out, uint32_t maxlen) { sym16(out, 0, maxlen); }
+/* length known to symex (isEmpty()/size() fold): use for strings whose emptiness decides the structure of the output */
+void vp_sym_string_exact(char *out, uint32_t len) { ASSERT(len <= 8, "symbolic string bound"); QAD *d = qs_new(len, len); uint16_t *p = SD(d);
+  for (uint32_t i = 0; i < 8; i++) { if (i >= len) break; p[i] = vp_u16(); } qs_seal(d, 0); *(QAD**)out = d; }
+void vp_sym_bytes_exact(char *out, uint32_t len) { ASSERT(len <= 8, "symbolic bytes bound"); QAD *d = qb_new(len, len); uint8_t *p = BD(d);
+  for (uint32_t i = 0; i < 8; i++) { if (i >= len) break; p[i] = vp_u8(); } BD(d)[len] = 0; *(QAD**)out = d; }
 void vp_sym_string_nonempty(char *out, uint32_t maxlen) { sym16(out, 1, maxlen); }
 void vp_sym_bytes(char *out, uint32_t maxlen) { uint32_t len = vp_u32(); ASSUME(len <= maxlen); ASSERT(maxlen <= 8, "symbolic bytes bound"); QAD *d = qb_new(len, maxlen); uint8_t *p = BD(d);
   uint8_t c0 = vp_u8(), c1 = vp_u8(), c2 = vp_u8(), c3 = vp_u8(); if (maxlen > 0) p[0] = c0; if (maxlen > 1) p[1] = c1; if (maxlen > 2) p[2] = c2; if (maxlen > 3) p[3] = c3;
